@@ -105,3 +105,24 @@ Example script_program_example :
        SEq [tv "X" 0] [tv "Y" 1] "X[t] = Y[t+1]" "self._X[t] = self._Y[t+1]"] /\
   exists syms, parse_model_nocheck ("Y = X[-1] + {a}" ++ nl_s ++ "X = Y[1]") = POk syms.
 Proof. split; [vm_compute; reflexivity|eexists; vm_compute; reflexivity]. Qed.
+
+(* ---------- the hypotheses of the rejection theorems are satisfiable ---------- *)
+Definition pR : list stmt := [SEq [tv "Y" 0] [tv "a" 0] "e1" "c1"; SEq [tv "Z" 0] [tp "a" 0] "e2" "c2"].
+Example conflict_hypotheses :
+  wf_program pR = true /\ fn_guard pR = true /\
+  exists a b, In a (amentions pR) /\ In b (amentions pR) /\ aname a = aname b /\ clash (atype a) (atype b).
+Proof.
+  split; [reflexivity|]. split; [reflexivity|].
+  exists (mkA (mkTerm "a" TExogenous (Some (IInt 0))) "e1" "c1"), (mkA (tp "a" 0) "e2" "c2").
+  split; [vm_compute; auto|]. split; [vm_compute; auto 10|]. split; [reflexivity|]. split; [discriminate|reflexivity].
+Qed.
+Definition pD : list stmt := [SEq [tv "Y" 0] [tv "X" 0] "Y[t] = X[t]" "c1"; SEq [tv "Y" 0] [tv "Z" 0] "Y[t] = Z[t]" "c2"].
+Example double_definition_hypotheses :
+  wf_program pD = true /\ fn_guard pD = true /\
+  exists a b, In a (amentions pD) /\ In b (amentions pD) /\ aname a = aname b /\ two_texts a b.
+Proof.
+  split; [reflexivity|]. split; [reflexivity|].
+  exists (mkA (mkTerm "Y" TEndogenous (Some (IInt 0))) "Y[t] = X[t]" "c1"), (mkA (mkTerm "Y" TEndogenous (Some (IInt 0))) "Y[t] = Z[t]" "c2").
+  split; [vm_compute; auto|]. split; [vm_compute; auto 10|]. split; [reflexivity|].
+  split; [reflexivity|]. split; [reflexivity|]. left. discriminate.
+Qed.
